@@ -170,7 +170,8 @@ HInst(q, r, j) ==
         \cup (IF u # 0 /\ F[u].fid >= 1 /\ F[u].fid \in StopC /\ F[u].err # ~OwnReg(F[u].fid)
               THEN {V({"C16", "C15"}, "unregistered-error-flag", u)} ELSE {})
         \cup {V({"C16"}, "stop-ignored", i) : i \in {i \in StopC \cap Seen : i < End /\ LaterActivity(i)}}
-        \cup {V({"C16", "C15"}, "missing-unregistered", i) : i \in {i \in Owed : i < End /\ ~LaterActivity(i) /\ u = 0 /\ settled /\ Ann # {}}}
+        \cup {V(IF OwnReg(i) THEN {"C16"} ELSE {"C16", "C15"}, "missing-unregistered", i) :
+                 i \in {i \in Owed : i < End /\ ~LaterActivity(i) /\ u = 0 /\ settled /\ Ann # {}}}
         \* ---- invocations: eligible, in order, one at a time, complete groups
         \cup UNION {Eligible(t) : t \in KTrigs}
         \cup {V({"C14"}, "trigger-order", t2) : t2 \in {t2 \in KTrigs : \E t1 \in KTrigs : t1 < t2 /\ LastF[t1] > FirstF[t2]}}
